@@ -38,6 +38,7 @@ type c11Log struct {
 	events []c11Event
 	script map[string][2]string // device -> (request behaviour, response behaviour)
 	active bool
+	lastNonHMACReq []string // the exemption list the broker handed to the device with the last request entry
 }
 
 var c11 = &c11Log{script: map[string][2]string{}}
@@ -72,7 +73,14 @@ func (s *scriptedAudit) behave(idx int, kind string) error {
 	return nil
 }
 
-func (s *scriptedAudit) LogRequest(_ context.Context, _ *logical.LogInput) error  { return s.behave(0, "audit-req") }
+func (s *scriptedAudit) LogRequest(_ context.Context, in *logical.LogInput) error {
+	if in != nil {
+		c11.mu.Lock()
+		c11.lastNonHMACReq = append([]string{}, in.NonHMACReqDataKeys...)
+		c11.mu.Unlock()
+	}
+	return s.behave(0, "audit-req")
+}
 func (s *scriptedAudit) LogResponse(_ context.Context, _ *logical.LogInput) error { return s.behave(1, "audit-resp") }
 func (s *scriptedAudit) LogTestMessage(context.Context, *logical.LogInput, map[string]string) error {
 	return nil
@@ -266,10 +274,161 @@ func TestVerifC11A(t *testing.T) {
 		}
 		s.Close()
 	}
+	c11PartM(t, res, &count)
 	var ol []string
 	for o := range orders {
 		ol = append(ol, o)
 	}
 	sort.Strings(ol)
 	res.Bound("device_orders_observed", ol)
+}
+
+
+// c11PartM: management operations that change what the audit log holds, interrupted by a
+// single storage fault (every storage operation of the call in turn). Afterwards the
+// system must audit according to the configuration the API REPORTS:
+//   tune     sys/mounts/rec/tune setting audit_non_hmac_request_keys: if the mount's
+//            configuration read back does not list the key, the broker must not hand the
+//            exemption to the devices (the value would be written in clear);
+//   disable  DELETE sys/audit/d0: if sys/audit still lists the device, requests are still
+//            audited by it before the backend is invoked (clause A of the statement).
+func c11PartM(t *testing.T, res *vout.Result, count *int) {
+	s0, tok, _ := c11Setup(t, 1)
+	img := s0.Image()
+	s0.Close()
+	type mop struct {
+		name string
+		do   func(s *Sys) (*logical.Response, error)
+	}
+	ops := []mop{
+		{"tune", func(s *Sys) (*logical.Response, error) {
+			return s.Req(s.Root, logical.UpdateOperation, "sys/mounts/rec/tune", map[string]interface{}{"audit_non_hmac_request_keys": []string{"exemptme"}})
+		}},
+		{"disable", func(s *Sys) (*logical.Response, error) {
+			return s.Req(s.Root, logical.DeleteOperation, "sys/audit/d0", nil)
+		}},
+	}
+	okScript := map[string][2]string{"d0": {"ok", "ok"}}
+	for _, op := range ops {
+		// pass 0: number of storage operations of the call
+		s := Boot(t, img)
+		s.Phys.FailAt("call", 1<<30)
+		s.Phys.SetTag("call")
+		_, _ = op.do(s)
+		s.Phys.SetTag("")
+		nops := s.Phys.TagCount("call")
+		s.Close()
+		res.Max("M_ops_in_"+op.name, int64(nops))
+		for k := 0; k <= nops; k++ {
+			*count++
+			if !vout.Mine(*count) {
+				continue
+			}
+			s := Boot(t, img)
+			if k > 0 {
+				s.Phys.FailAt("call", k)
+			} else {
+				s.Phys.FailAt("call", 1<<30)
+			}
+			s.Phys.SetTag("call")
+			resp, err := op.do(s)
+			s.Phys.SetTag("")
+			failed := s.Phys.Failed()
+			what := "no fault"
+			if failed != nil {
+				what = "storage op " + failed.String() + " failed once"
+			}
+			art := map[string]interface{}{"op": op.name, "k": k, "fault": what, "call_ok": OK(resp, err)}
+			res.Add("evaluations", 1)
+			res.Add("M_runs", 1)
+			switch op.name {
+			case "tune":
+				exemptPerAPI := false
+				if tr, te := s.Req(s.Root, logical.ReadOperation, "sys/mounts/rec/tune", nil); OK(tr, te) && tr != nil {
+					for _, kx := range toStringSlice(tr.Data["audit_non_hmac_request_keys"]) {
+						if kx == "exemptme" {
+							exemptPerAPI = true
+						}
+					}
+				}
+				c11.mu.Lock()
+				c11.events, c11.script, c11.active, c11.lastNonHMACReq = nil, okScript, true, nil
+				c11.mu.Unlock()
+				_, _ = s.Req(tok, logical.UpdateOperation, "rec/kv/m", map[string]interface{}{"exemptme": c11Canary})
+				c11.mu.Lock()
+				c11.active = false
+				handed := append([]string{}, c11.lastNonHMACReq...)
+				c11.mu.Unlock()
+				handedExempt := false
+				for _, kx := range handed {
+					if kx == "exemptme" {
+						handedExempt = true
+					}
+				}
+				if handedExempt && exemptPerAPI && !OK(resp, err) {
+					// the call reported an error: the exemption is only "explicit" if it is what the
+					// stored configuration says, i.e. what a restarted server reports
+					img2 := s.Image()
+					if s2, berr := BootData(t, img2.Data, img2); berr == nil {
+						exemptPerAPI = false
+						if tr, te := s2.Req(s2.Root, logical.ReadOperation, "sys/mounts/rec/tune", nil); OK(tr, te) && tr != nil {
+							for _, kx := range toStringSlice(tr.Data["audit_non_hmac_request_keys"]) {
+								if kx == "exemptme" {
+									exemptPerAPI = true
+								}
+							}
+						}
+						s2.Close()
+					}
+				}
+				if handedExempt && !exemptPerAPI {
+					res.Violate("c11:mgmt:tune:value-exempted-from-hmac-although-configuration-says-no", fmt.Sprintf("%v: the mount's configuration does not list the key, yet the request entry was handed to the devices with it exempted from HMAC (its value is written in clear)", art), art)
+				}
+				res.Distinct("nontrivial", fmt.Sprintf("M|tune|ok=%v|api=%v|handed=%v", OK(resp, err), exemptPerAPI, handedExempt))
+			case "disable":
+				listed := false
+				if lr, le := s.Req(s.Root, logical.ReadOperation, "sys/audit", nil); OK(lr, le) && lr != nil {
+					for kx := range lr.Data {
+						if strings.HasPrefix(kx, "d0") {
+							listed = true
+						}
+					}
+				}
+				s.Rec.Reset()
+				c11.mu.Lock()
+				c11.events, c11.script, c11.active = nil, okScript, true
+				c11.mu.Unlock()
+				_, _ = s.Req(tok, logical.ReadOperation, "rec/kv/a", nil)
+				c11.mu.Lock()
+				c11.active = false
+				ev := append([]c11Event{}, c11.events...)
+				c11.mu.Unlock()
+				accepted := false
+				for _, e := range ev {
+					if e.kind == "audit-req" && e.ok {
+						accepted = true
+					}
+				}
+				if listed && s.Rec.NumOpCalls() > 0 && !accepted {
+					res.Violate("c11:mgmt:disable:listed-device-no-longer-audits", fmt.Sprintf("%v: sys/audit still lists the device, a request reached the backend, no request entry was recorded", art), art)
+				}
+				res.Distinct("nontrivial", fmt.Sprintf("M|disable|ok=%v|listed=%v|accepted=%v", OK(resp, err), listed, accepted))
+			}
+			s.Close()
+		}
+	}
+}
+
+func toStringSlice(v interface{}) []string {
+	switch x := v.(type) {
+	case []string:
+		return x
+	case []interface{}:
+		var out []string
+		for _, e := range x {
+			out = append(out, fmt.Sprint(e))
+		}
+		return out
+	}
+	return nil
 }
